@@ -351,6 +351,13 @@ def step (d : DState) (tok : List String) : DState × List String :=
           (d.set { s with methods := s.methods.map (fun m =>
             if m.key == key then { m with defs := m.defs ++ [{ id := did, vp := vp }] } else m) }, [])
         | _ => (d, ["!harness bad def op"])
+      | "ghostdefs", _ =>
+        -- n more definitions with the same parameter classes (ids from 900000 up)
+        match nats with
+        | key :: n :: vp =>
+          (d.set { s with methods := s.methods.map (fun m =>
+            if m.key == key then { m with defs := m.defs ++ (List.range n).map (fun i => { id := 900000 + i, vp := vp }) } else m) }, [])
+        | _ => (d, ["!harness bad ghostdefs op"])
       | "undef", _ =>
         match nats with
         | key :: did :: _ =>
@@ -380,7 +387,9 @@ def step (d : DState) (tok : List String) : DState × List String :=
         match s.compiled with
         | none => (d, ["skipped: no completed update"])
         | some c =>
-          let em := encode c
+          match encodeChecked c with
+          | none => ({ d with encoded := none }, ["encode refused"])
+          | some em =>
           ({ d with encoded := some em },
            [s!"encoded headroom={em.headroom} slots={em.slotsN} vtbls={em.encN} decoded={em.decN} dtbls={em.dtblN}",
             s!"enc-slots {fmtNats em.slots}", s!"enc-vtbls {fmtNats em.vtbls}", s!"enc-dtbls {fmtNats em.dtbls}"])
